@@ -8,6 +8,7 @@ THEOREMS = [
     "Pyribs.GenFProofs.add_single_from_source",
     "Pyribs.GenFProofs.batch_caninsert_from_source",
     "Pyribs.GenFProofs.single_writes_from_source",
+    "Pyribs.GenFProofs.transform_chains_from_source",
     "Pyribs.C01.contents_spec",
     "Pyribs.C01.contents_full",
     "Pyribs.C01.bestOf_spec",
